@@ -31,6 +31,23 @@ func mentionsText(e ast.Node, sub string) bool {
 	return found
 }
 
+// mentionsTextDeep is mentionsText looking through local variables with a single definition.
+func mentionsTextDeep(f *ir.Func, e ast.Node, sub string) bool {
+	if mentionsText(e, sub) {
+		return true
+	}
+	found := false
+	ast.Inspect(e, func(n ast.Node) bool {
+		if id, ok := n.(*ast.Ident); ok && !found {
+			if o := origin(f, id); o != ast.Expr(id) && mentionsText(o, sub) {
+				found = true
+			}
+		}
+		return !found
+	})
+	return found
+}
+
 // rhCond is a leaf condition that decides `<x>.Height >= <…>.RequireHeight`,
 // however it is spelled (>=, <, operands swapped): ge / lt are the edges on
 // which the relation holds / does not hold.
@@ -55,7 +72,8 @@ func requireHeightConds(fn *ir.Func) []rhCond {
 		if !ok {
 			continue
 		}
-		x, y, op := be.X, be.Y, be.Op
+		// a hoisted `requireHeight := ….RequireHeight` (also one captured from the enclosing function) is looked through
+		x, y, op := origin(fn, be.X), origin(fn, be.Y), be.Op
 		if isSel(x, "RequireHeight") && isSel(y, "Height") {
 			// mirror: a op b  ==  b op' a
 			x, y = y, x
@@ -535,6 +553,14 @@ func c11r2(c *Ctx) {
 		if worker == nil {
 			ir.Fail("sync worker not found")
 		}
+		// with helpers, local closures and library searches (slices.EqualFunc …) expanded
+		if worker.Lit != nil {
+			if wv := syncerView(c, worker.Top()).LitFor(worker); wv != nil {
+				worker = wv
+			}
+		} else {
+			worker = syncerView(c, worker)
+		}
 		g := worker.Graph()
 		ob := c.Ob(worker, "blocks-match-validated-headers", worker.Body.Pos())
 		wconds := requireHeightConds(worker)
@@ -560,14 +586,19 @@ func c11r2(c *Ctx) {
 							continue
 						}
 						be, ok := ast.Unparen(m.AST.(ast.Expr)).(*ast.BinaryExpr)
-						if !ok || be.Op != token.NEQ || !mentionsText(be.X, ".ID()") || !mentionsText(be.Y, ".ID()") || !mentionsText(be, "headers") {
+						if !ok || (be.Op != token.NEQ && be.Op != token.EQL) || !mentionsText(be.X, ".ID()") || !mentionsText(be.Y, ".ID()") || !mentionsTextDeep(worker, be, "headers") {
 							continue
 						}
 						head, exit, body := enclosingRange(worker, m)
 						if head == nil {
 							continue
 						}
-						cut := map[*cfgx.Edge]bool{m.Succs[1]: true}
+						// the edge on which the two ids are equal: the only way to the next iteration
+						same := m.Succs[1]
+						if be.Op == token.EQL {
+							same = m.Succs[0]
+						}
+						cut := map[*cfgx.Edge]bool{same: true}
 						if !reachAvoidingEdges(g, body, head, nil, cut) && worker.OnlyVia(node, []*cfgx.Edge{exit}) {
 							good = true
 						}
